@@ -9,18 +9,19 @@ let fuel = D_solver.fuel
 let int_of_nat = D_solver.int_of_nat
 
 type deps = (int * int) list option
-type case = { reg : (int * (int * deps) list) list; rootp : int; rootv : int; trace : Sx.t list }
+type case = { reg : (int * (int * deps) list) list; rootp : int; rootv : int; trace : Sx.t list; strat : (bool * int) option }
 
 let parse_case (c : Sx.t) : case =
   match Sx.list c with
-  | [Sx.A "solveb"; Sx.L (Sx.A "reg" :: pk); Sx.L [Sx.A "root"; rp; rv]; Sx.L (Sx.A "trace" :: evs)] ->
+  | Sx.A "solveb" :: Sx.L (Sx.A "reg" :: pk) :: Sx.L [Sx.A "root"; rp; rv] :: Sx.L (Sx.A "trace" :: evs) :: rest ->
+    let strat = match rest with [Sx.L [Sx.A "strat"; n; pr]] -> Some (Sx.int n = 1, Sx.int pr) | _ -> None in
     let reg = List.map (fun p -> match Sx.list p with
       | pn :: vs -> (Sx.int pn, List.map (fun ve -> match Sx.list ve with
           | [v; Sx.A _] -> (Sx.int v, None)
           | [v; Sx.L ds] -> (Sx.int v, Some (List.map (fun d -> match Sx.list d with [q; m] -> (Sx.int q, Sx.int m) | _ -> failwith "dep") ds))
           | _ -> failwith "version") vs)
       | _ -> failwith "pkg") pk in
-    { reg; rootp = Sx.int rp; rootv = Sx.int rv; trace = evs }
+    { reg; rootp = Sx.int rp; rootv = Sx.int rv; trace = evs; strat }
   | _ -> failwith "solverb: unknown case"
 
 let v8 i = v8_of_N (n_of_int i)
@@ -70,14 +71,49 @@ let outcome_sx (o : (n, v8) outcome) : str =
   | OMismatch (n, why) -> sp "(model-trace-mismatch %d %d)" (int_of_nat n) (int_of_n why)
   | OPickNotMax (n, p) -> sp "(pick-not-max %d %d)" (int_of_nat n) (int_of_n p)
 
+(* The GENERATING model (Proofs/SolverGen.v, resolve_g): given only the provider - here the harness's strategy
+   (newest / oldest version, one of four priority functions) over the registry of the case; the iteration order of a
+   dependency map is taken from the recorded answer - it must produce the whole recorded call trace and the result. *)
+let has_bit (m : int) (v : int) = v >= 0 && v < 8 && (m lsr v) land 1 = 1
+let gen_field (c : case) (tr : (n, v8) event list) (o_h : (n, v8) outcome) : str =
+  match c.strat with
+  | None -> "(gen ok)"
+  | Some _ when List.mem (EvCancel false) tr -> "(gen ok)"
+  | Some (newest, prio) ->
+    let versions p = match List.assoc_opt p c.reg with Some vs -> List.sort compare (List.map fst vs) | None -> [] in
+    let inside p s = List.filter (fun v -> has_bit (int_of_n s) v) (versions (int_of_n p)) in
+    let pg = {
+      p_cancel = (fun _ -> true);
+      p_prio = (fun _ p s -> z_of_int (match prio with
+        | 0 -> 0 | 1 -> - (List.length (inside p s)) | 2 -> int_of_n p | _ -> - (int_of_n p)));
+      p_choose = (fun _ p s -> match inside p s with
+        | [] -> CNone
+        | l -> CSome (v8 (if newest then List.nth l (List.length l - 1) else List.hd l)));
+      p_deps = (fun _ p v ->
+        match List.find_map (function EvDeps (p', v', a) when p' = p && v' = v -> Some a | _ -> None) tr with
+        | Some a -> a
+        | None -> (match List.assoc_opt (int_of_n p) c.reg with
+            | Some vs -> (match List.assoc_opt (int_of_n (v8_idx v)) vs with
+                | Some (Some ds) -> DAvail (List.map (fun (q, m) -> (n_of_int q, n_of_int m)) ds)
+                | _ -> DUnavail N0)
+            | None -> DUnavail N0)) } in
+    let ((((o, _), _), _), gtr) = resolve_g bitset_vs v8_eqb pg fuel (n_of_int c.rootp) (v8 c.rootv) in
+    if gtr = tr && outcome_sx o = outcome_sx o_h then "(gen ok)"
+    else begin
+      let rec first_diff i a b = match a, b with
+        | x :: a', y :: b' -> if x = y then first_diff (i + 1) a' b' else i
+        | _, _ -> i in
+      sp "(gen differs %d %d %d)" (first_diff 0 gtr tr) (List.length gtr) (List.length tr)
+    end
+
 let eval (cs : Sx.t) : str =
   let c = parse_case cs in
   let tr = List.map model_ev c.trace in
   let run f = f bitset_vs v8_eqb fuel (n_of_int c.rootp) (v8 c.rootv) tr in
   match run resolve_h with
   | (((OMismatch (n, w), _), _), _) when int_of_n w = 6 ->
-    let (((o, _), _), _) = run resolve in sp "(res %s) (heap pick-differs %d)" (outcome_sx o) (int_of_nat n)
-  | (((o, _), _), _) -> sp "(res %s) (heap ok)" (outcome_sx o)
+    let (((o, _), _), _) = run resolve in sp "(res %s) (heap pick-differs %d) %s" (outcome_sx o) (int_of_nat n) (gen_field c tr o)
+  | (((o, _), _), _) -> sp "(res %s) (heap ok) %s" (outcome_sx o) (gen_field c tr o)
 
 (* ---------------------------------------------------------------- oracles on the implementation's observation *)
 let has (m : int) (v : int) = v >= 0 && v < 8 && (m lsr v) land 1 = 1
